@@ -58,10 +58,14 @@ def canon_msg(msg):
 
 class Rig(object):
     def __init__(self, seed, role='acceptor', trace=None, store_in_file=(), get_file_cb=None,
-                 max_pdu_length=65536, prebuffer=b'', fs=None, policy='random', short_reads=False):
+                 max_pdu_length=65536, prebuffer=b'', fs=None, policy='random', short_reads=False,
+                 with_fs=False):
         from pynetdicom2 import dulprovider
         self.sim = sched.Sim(seed, trace, policy=policy)
         gc.disable()
+        if with_fs:
+            from . import fs as simfs
+            fs = simfs.SimFS(self.sim)
         self.world = seams.install(self.sim, fs)
         self.role = role
         self.closed = False
